@@ -20,6 +20,16 @@ CLAIMED = {
         "limited to the rational sub-family",
         "DESIGN.md 3 C01",
     ),
+    "C02": (
+        "spec/GridDefs.tla (section ITK convention), spec/Grid.tla, spec/MC_Grid.tla",
+        "TLA+ statement of ITK's index<->physical formulas in exact rationals, independent of the centre-based grid model; TLC checks "
+        "they coincide with the grid maps on the lattice; each lattice grid is evaluated three-way: spec / deepali / SimpleITK",
+        "every lattice grid (sizes incl. 1, proper rotations, flips, permutations, both construction routes) is checked against the "
+        "spec on Grid(origin=|center=), from_seq/from_numpy, from_sitk, Image.sitk/from_sitk, GridAttrs and file headers; SimpleITK "
+        "must agree with the spec on every case or the check fails as machinery error",
+        "trusted: TLC, SimpleITK as the independent reference for the spec, float32 tolerance policy; rational rotations only",
+        "DESIGN.md 3 C02",
+    ),
     "C03": (
         "spec/GridOps.tla, spec/MC_GridOps.tla, spec/Trace_GridOps.tla",
         "TLA+ state machine of derived-grid operations (constructive definition + world-geometry post-condition per action); "
